@@ -5,6 +5,8 @@ From Coq Require Import List NArith ZArith.
 From SudachiVerif Require Import Model.Codec Proofs.CodecProofs.
 From SudachiVerif Require Import Model.GuardLang Model.CodecConn Proofs.CodecConnProofs Proofs.CodecLexProofs.
 From SudachiVerif Require Import Model.CodecResolve Proofs.CodecResolveProofs Proofs.CodecResolveLexProofs.
+From SudachiVerif Require Import Model.CodecCsv Proofs.CodecCsvProofs Proofs.CodecRowProofs.
+From SudachiVerif Require Model.LexSet Generated.CsvFacts.
 From SudachiVerif Require Generated.FieldOrder.
 Open Scope N_scope.
 
@@ -153,3 +155,107 @@ Theorem C05_inline_reference_roundtrip :
     Forall2 (unit_target rows) (r_a r) a /\ Forall2 (unit_target rows) (r_b r) b.
 Proof. exact (inline_reference_roundtrip C05_writer_order C05_reader_order C05_len_thresholds). Qed.
 Print Assumptions C05_inline_reference_roundtrip.
+
+(* ====================================================================================================================
+   The lexicon reader's own text handling (Model/CodecCsv.v), from the fields of a CSV row on.
+   Obligations on Generated/CsvFacts.v: the model was written for these regexes, limits, comparison operators, column
+   table, inline-reference fields and mode table (a changed column order or parser breaks the equalities). *)
+Fact C05_csv_columns : CF.record_columns = expected_columns.
+Proof. vm_compute. reflexivity. Qed.
+Fact C05_csv_inline_fields : CF.inline_fields = expected_inline_fields.
+Proof. vm_compute. reflexivity. Qed.
+Fact C05_csv_mode_table : CF.mode_table = expected_mode_table.
+Proof. vm_compute. reflexivity. Qed.
+Fact C05_csv_facts : csv_facts_ok = true.
+Proof. vm_compute. reflexivity. Qed.
+(* pos_of refuses a new POS iff the number of POS so far `>` MAX_POS_IDS, and 0 <= MAX_POS_IDS <= 65534 *)
+Fact C05_pos_limit : pos_limit_ok = true.
+Proof. vm_compute. reflexivity. Qed.
+Fact C05_word_mask : word_mask_ok = true.
+Proof. vm_compute. reflexivity. Qed.
+Fact C05_pos_depth : CF.POS_DEPTH = 6.
+Proof. vm_compute. reflexivity. Qed.
+
+(* unescape, exactly: on the empty text; on `\u{h..h}` (1 to 6 hex digits, either case) and on `\uhhhh` it yields the
+   scalar value the digits name and goes on behind the escape, or fails with InvalidCharLiteral(digits) when they name
+   none (a surrogate, or above U+10FFFF); every other character -- a backslash that starts neither form included --
+   stands for itself.  The forms are recognised left to right and never inside a decoded escape. *)
+Theorem C05_unescape_spec :
+  unescape_go 0 nil = ROk nil
+  /\ (forall hs r, all_hex hs = true -> (1 <= List.length hs <= 6)%nat ->
+        unescape_go 0 (braces_form hs ++ r) = decoded_or_err hs (unescape_go 0 r))
+  /\ (forall hs r, all_hex hs = true -> List.length hs = 4%nat ->
+        unescape_go 0 (four_form hs ++ r) = decoded_or_err hs (unescape_go 0 r))
+  /\ (forall c t, ~ starts_escape (c :: t) -> unescape_go 0 (c :: t) = (do x <- unescape_go 0 t; ROk (c :: x))).
+Proof. exact unescape_spec. Qed.
+Print Assumptions C05_unescape_spec.
+
+(* a field without backslash is unchanged (or refused for its size: more than MAX_DIC_STRING_LEN bytes) *)
+Theorem C05_unescape_plain :
+  forall s, existsb (fun c => c =? BACKSLASH) s = false ->
+  unescape s = if cmp_eval CF.str_len_cmp (Z.of_N (utf8_len s)) CF.MAX_DIC_STRING_LEN then RErr ESize else ROk s.
+Proof. exact unescape_plain. Qed.
+Print Assumptions C05_unescape_plain.
+
+(* POS numbering (pos_of along the requests of a lexicon, inline references of a row before the row itself, user
+   dictionaries starting from the preloaded system table `st`): the table grows by the new rows in order of first
+   appearance, each once; pos_table[id] is the requested row; ids stay within MAX_POS_IDS (u16) *)
+Theorem C05_pos_ids_spec :
+  forall ps st st' ids, pos_inv st -> assign st ps = ROk (st', ids) ->
+  st' = st ++ new_rows st ps /\ pos_inv st' /\ List.length ids = List.length ps /\
+  (forall i p, nth_error ps i = Some p ->
+     nth_error st' (N.to_nat (nth i ids 0%N)) = Some p /\ (Z.of_N (nth i ids 0%N) <= CF.MAX_POS_IDS)%Z).
+Proof. exact (assign_spec C05_pos_limit). Qed.
+Print Assumptions C05_pos_ids_spec.
+
+(* equal rows get equal ids, different rows different ids *)
+Theorem C05_pos_ids_injective :
+  forall ps st st' ids, pos_inv st -> assign st ps = ROk (st', ids) ->
+  forall i j p q, nth_error ps i = Some p -> nth_error ps j = Some q -> (p = q <-> nth i ids 0 = nth j ids 0).
+Proof. exact (assign_injective C05_pos_limit). Qed.
+Print Assumptions C05_pos_ids_injective.
+
+(* it is the numbering of C12's model (Model/LexSet.v, assign_pos over interned POS), for every injective interning *)
+Theorem C05_pos_ids_match_lexset :
+  forall (enc : posrow -> N), (forall a b, enc a = enc b -> a = b) ->
+  forall ps st st' ids, assign st ps = ROk (st', ids) ->
+  LexSet.assign_pos (map enc st) (map enc ps) = (map enc st', ids).
+Proof. exact assign_refines_lexset. Qed.
+Print Assumptions C05_pos_ids_match_lexset.
+
+(* the POS table write_pos_table emits is read back row for row by the grammar reader (pos_list_parser) *)
+Theorem C05_pos_table_roundtrip :
+  forall rows b rest, Forall posrow_ok rows -> N.of_nat (List.length rows) < 65536 ->
+  pos_table_bytes rows = Some b -> read_pos_table (b ++ rest) = Some (rows, rest).
+Proof. exact (pos_table_roundtrip C05_len_thresholds C05_pos_depth). Qed.
+Print Assumptions C05_pos_table_roundtrip.
+
+(* ... in particular the table the records of a system lexicon were numbered against *)
+Theorem C05_records_pos_table_roundtrip :
+  forall rows st rrows b rest,
+  Forall fields_scalar rows -> parse_records nil rows = ROk (st, rrows) ->
+  pos_table_bytes st = Some b -> read_pos_table (b ++ rest) = Some (st, rest).
+Proof. exact (records_pos_table_roundtrip C05_len_thresholds C05_pos_limit C05_word_mask C05_pos_depth). Qed.
+Print Assumptions C05_records_pos_table_roundtrip.
+
+(* the statement a user relies on: rows given as their CSV fields (any texts), accepted by the field parsers
+   (parse_records), resolved, validated (refs_valid: what validate_entries checks), written at any place of a file below
+   4 GiB: reading word k through the loader and the public accessors gives what row k says -- the unescaped headword,
+   the byte length of the unescaped index form, a POS id whose table row is the six unescaped POS columns, normalised
+   and reading form (an empty column meaning the headword), the dictionary form id and form, word structure and
+   synonym ids as written, split units as written or, for inline references, the first row with that index form, POS
+   and reading, and the three connection parameters *)
+Theorem C05_row_roundtrip :
+  forall rows st rrows es prefix sec,
+  Forall fields_scalar rows ->
+  parse_records nil rows = ROk (st, rrows) ->
+  resolve_rows false rrows nil = Some es ->
+  refs_valid es ->
+  write_words_section (N.of_nat (List.length prefix)) es = Some sec ->
+  N.of_nat (List.length (prefix ++ sec)) < 4294967296 ->
+  forall k f, nth_error rows k = Some f ->
+  exists info,
+    get_word_info (lexicon_of_file (prefix ++ sec) (N.of_nat (List.length prefix))) true (N.of_nat k) ALL = Some info /\
+    row_says st rrows es k f info (file_params (prefix ++ sec) (N.of_nat (List.length prefix)) (N.of_nat k)).
+Proof. exact (row_roundtrip C05_writer_order C05_reader_order C05_len_thresholds C05_pos_limit C05_word_mask). Qed.
+Print Assumptions C05_row_roundtrip.
